@@ -21,7 +21,10 @@ import (
 
 // scanEnding says how the scan is ended (C14); Kind "exhaust" is C06.
 type scanEnding struct {
-	Kind       string `json:"kind"`              // exhaust | close | error | cancel
+	Kind       string `json:"kind"`              // exhaust | close | error | cancel | cancelmid
+	// MidReq (cancelmid): after After Next calls, the context is cancelled while the MidReq-th request
+	// of the following Next call is being answered (the response still arrives)
+	MidReq int `json:"mid_req,omitempty"`
 	After      int    `json:"after,omitempty"`   // Next calls before Close / cancel
 	FailOn     int    `json:"fail_on,omitempty"` // 1-based request number that fails
 	CloseTwice bool   `json:"close_twice,omitempty"`
@@ -118,7 +121,7 @@ func scanOnce(c scanCase, m *scanModel) (out Outcome) {
 	calls := 0
 	ended := false // EOF or error seen
 	for calls < maxCalls {
-		if (c.End.Kind == "close" || c.End.Kind == "cancel") && calls == c.End.After {
+		if (c.End.Kind == "close" || c.End.Kind == "cancel" || c.End.Kind == "cancelmid") && calls == c.End.After {
 			break
 		}
 		st := next()
@@ -169,6 +172,52 @@ func scanOnce(c scanCase, m *scanModel) (out Outcome) {
 		}
 	case "cancel":
 		if !ended {
+			cancel()
+		}
+	case "cancelmid":
+		if !ended {
+			m.mu.Lock()
+			m.cancelAfter, m.cancelFn = m.requests+c.End.MidReq, cancel
+			m.mu.Unlock()
+			returnedBefore := len(acc.rows)
+			st := next()
+			m.mu.Lock()
+			m.cancelFn = nil
+			m.mu.Unlock()
+			switch {
+			case st.err == io.EOF:
+				ended = true
+			case st.err != nil:
+				sawErr, firstErr, ended = true, st.err, true
+				// the row being assembled when the cancellation was noticed: everything the servers
+				// had sent of it is handed out together with the error
+				if !spec.Partials && errors.Is(st.err, context.Canceled) && returnedBefore < len(want) {
+					row := want[returnedBefore]
+					m.mu.Lock()
+					e := m.emitted[string(row.Key)]
+					m.mu.Unlock()
+					got := 0
+					if st.res != nil {
+						got = len(st.res.Cells)
+					}
+					if e > 0 && e < row.Cells && got != e {
+						return viol("cancel-lost-assembled-row", "the scan was cancelled while row %q was being assembled: the servers had sent %d of its %d cells, "+
+							"the cancellation was reported with %d cells", row.Key, e, row.Cells, got)
+					}
+					if e > 0 && e < row.Cells {
+						out.Labels = append(out.Labels, "cancelled_mid_row")
+					}
+				}
+				if st.res != nil && len(st.res.Cells) > 0 {
+					gotPartialWithErr = true
+					acc.add(st.res, false)
+				}
+			default:
+				if st.res == nil {
+					return viol("nil-result", "Next returned (nil, nil)")
+				}
+				acc.add(st.res, spec.Partials)
+			}
 			cancel()
 		}
 	}
@@ -248,7 +297,7 @@ func scanOnce(c scanCase, m *scanModel) (out Outcome) {
 		if m.failOn <= m.requests && !sawErr {
 			return viol("error-swallowed", "request %d failed but Next never reported an error", m.failOn)
 		}
-	case "cancel":
+	case "cancel", "cancelmid":
 		if sawErr && !errors.Is(firstErr, context.Canceled) {
 			return viol("unexpected-error", "scan failed with %v after cancellation", firstErr)
 		}
@@ -503,7 +552,8 @@ func TestC14_Scanner(t *testing.T) {
 			"on request >= 2, or early no-more-results; distinct by case hash")
 	Drive(t, rec, false, func(t *rapid.T) scanCase {
 		c := scanCase{Spec: scanSpecGen(t)}
-		c.End.Kind = rapid.SampledFrom([]string{"exhaust", "close", "close", "error", "error", "cancel", "cancel"}).Draw(t, "ending")
+		c.End.Kind = rapid.SampledFrom([]string{"exhaust", "close", "close", "error", "error", "cancel", "cancel", "cancelmid", "cancelmid"}).Draw(t, "ending")
+		c.End.MidReq = rapid.IntRange(1, 3).Draw(t, "midreq")
 		c.End.After = rapid.IntRange(0, 6).Draw(t, "after")
 		c.End.FailOn = rapid.IntRange(1, 8).Draw(t, "failon")
 		c.End.CloseTwice = rapid.Bool().Draw(t, "twice")
